@@ -254,8 +254,10 @@ class Ctx:
     # -- bookkeeping
     def count(self, case_key, nontrivial=True):
         self.evaluations += 1
+        r = repr(case_key)
+        self.last_case = r[:400]
         if nontrivial:
-            self._distinct.add(hashlib.sha1(repr(case_key).encode()).digest()[:8])
+            self._distinct.add(hashlib.sha1(r.encode()).digest()[:8])
 
     def bump(self, name, k=1):
         self.hist[name] = self.hist.get(name, 0) + k
